@@ -326,6 +326,13 @@ pub fn run_ops(ctx: &BuildContext<VB>, ops: &[Value], src_dir: &Path) -> libcnb:
                 let AnyRef::C(r) = &refs[&name_s];
                 r.write_env(env_of(&op["env"]))?;
             }
+            "rewrite_env" => {
+                // read the layer's environment and write it straight back
+                get(&refs)?;
+                let AnyRef::C(r) = &refs[&name_s];
+                let e = r.read_env()?;
+                r.write_env(e)?;
+            }
             "read_env" => {
                 get(&refs)?;
                 let AnyRef::C(r) = &refs[&name_s];
